@@ -209,6 +209,144 @@ theorem C17_error_propagated (ph : ArtPhase) (e : CmdErr)
   | fallback => rfl
   | more emb ex mime out => rfl
 
+/-! ## the same for a chunk limit that VARIES from request to request
+
+A server may answer any request with a shorter chunk than the one before (`binarylimit` lowered by
+another client in mid-download; a short read from a network mount). `l off` is the limit in force
+when the chunk at offset `off` is requested (offsets strictly increase, so each is asked once):
+any function with `1 ≤ l off`. -/
+
+/-- an honest server's reply when the chunk limit at offset `off` is `l off` -/
+def chunkAtV (pic : Bytes) (mime : Option Bytes) (l : Nat → Nat) (off : Nat) : Decoded :=
+  .ok (some (pic.length, mime, (pic.drop off).take (l off)))
+
+/-- the chunk loop: from `n` bytes already received to the whole picture -/
+theorem loop_exact_v (ask : Bool → Nat → Decoded) (emb : Bool) (pic : Bytes) (mime mime' : Option Bytes) (l : Nat → Nat)
+    (hl : ∀ off, 1 ≤ l off) (hask : ∀ off, ask emb off = chunkAtV pic mime' l off) :
+    ∀ (k n fuel : Nat), pic.length - n ≤ k → n ≤ pic.length → k < fuel →
+      (artRun ask fuel (artLoop emb pic.length mime (pic.take n))).1 = some (.art (some (pic, mime))) ∧
+      ∀ eo ∈ (artRun ask fuel (artLoop emb pic.length mime (pic.take n))).2,
+        eo.1 = emb ∧ n ≤ eo.2 ∧ eo.2 < pic.length := by
+  intro k
+  induction k with
+  | zero =>
+    intro n fuel hk hn hf
+    have hnl : n = pic.length := by omega
+    subst hnl
+    cases fuel with
+    | zero => omega
+    | succ f => simp [artLoop, artRun]
+  | succ k ih =>
+    intro n fuel hk hn hf
+    cases fuel with
+    | zero => omega
+    | succ f =>
+      by_cases hlt : n < pic.length
+      · have hlen : (pic.take n).length = n := by simp; omega
+        simp only [artLoop, hlen, hlt, if_true, artRun, hask, chunkAtV, artNext]
+        rw [take_append_chunk]
+        have hmin : pic.take (n + l n) = pic.take (min (n + l n) pic.length) := by
+          simp [List.take_eq_take_iff]
+        rw [hmin]
+        have := ih (min (n + l n) pic.length) f (by have := hl n; omega) (by omega) (by omega)
+        refine ⟨this.1, ?_⟩
+        intro eo heo
+        simp only [List.mem_cons] at heo
+        rcases heo with rfl | heo
+        · exact ⟨rfl, Nat.le_refl _, hlt⟩
+        · obtain ⟨h1, h2, h3⟩ := this.2 eo heo
+          exact ⟨h1, by omega, h3⟩
+      · have hnl : n = pic.length := by omega
+        subst hnl
+        simp [artLoop, artRun]
+
+/-- offsets are strictly increasing along the whole run -/
+theorem loop_increasing_v (ask : Bool → Nat → Decoded) (emb : Bool) (pic : Bytes) (mime mime' : Option Bytes) (l : Nat → Nat)
+    (hl : ∀ off, 1 ≤ l off) (hask : ∀ off, ask emb off = chunkAtV pic mime' l off) :
+    ∀ (k n fuel : Nat), pic.length - n ≤ k → n ≤ pic.length → k < fuel →
+      ((artRun ask fuel (artLoop emb pic.length mime (pic.take n))).2.map (·.2)).Pairwise (· < ·) := by
+  intro k
+  induction k with
+  | zero =>
+    intro n fuel hk hn hf
+    have hnl : n = pic.length := by omega
+    subst hnl
+    cases fuel with
+    | zero => omega
+    | succ f => simp [artLoop, artRun]
+  | succ k ih =>
+    intro n fuel hk hn hf
+    cases fuel with
+    | zero => omega
+    | succ f =>
+      by_cases hlt : n < pic.length
+      · have hlen : (pic.take n).length = n := by simp; omega
+        simp only [artLoop, hlen, hlt, if_true, artRun, hask, chunkAtV, artNext]
+        rw [take_append_chunk]
+        have hmin : pic.take (n + l n) = pic.take (min (n + l n) pic.length) := by
+          simp [List.take_eq_take_iff]
+        rw [hmin]
+        have h1 := ih (min (n + l n) pic.length) f (by have := hl n; omega) (by omega) (by omega)
+        have h2 := (loop_exact_v ask emb pic mime mime' l hl hask k (min (n + l n) pic.length) f (by have := hl n; omega) (by omega) (by omega)).2
+        simp only [List.map_cons, List.pairwise_cons]
+        refine ⟨?_, h1⟩
+        intro o ho
+        simp only [List.mem_map] at ho
+        obtain ⟨eo, heo, rfl⟩ := ho
+        have := (h2 eo heo).2.1
+        have := hl n
+        omega
+      · have hnl : n = pic.length := by omega
+        subst hnl
+        simp [artLoop, artRun]
+
+/-- **embedded picture present**: exact bytes and MIME type, requests only to `readpicture` -/
+theorem C17_exact_embedded_varying (ask : Bool → Nat → Decoded) (pic : Bytes) (mime : Option Bytes) (l : Nat → Nat)
+    (hl : ∀ off, 1 ≤ l off) (hask : ∀ off, ask true off = chunkAtV pic mime l off) :
+    (artRun ask (pic.length + 2) start).1 = some (.art (some (pic, mime))) ∧
+    (∀ eo ∈ (artRun ask (pic.length + 2) start).2, eo.1 = true) ∧
+    ((artRun ask (pic.length + 2) start).2.map (·.2)).Pairwise (· < ·) := by
+  have hfirst : artNext .first (ask true 0) = artLoop true pic.length mime (pic.take (min (l 0) pic.length)) := by
+    rw [hask]
+    have : pic.take (l 0) = pic.take (min (l 0) pic.length) := by simp [List.take_eq_take_iff]
+    simp [chunkAtV, artNext, this]
+  simp only [start, artRun, hfirst]
+  have h1 := loop_exact_v ask true pic mime mime l hl hask pic.length (min (l 0) pic.length) (pic.length + 1) (by omega) (by omega) (by omega)
+  have h2 := loop_increasing_v ask true pic mime mime l hl hask pic.length (min (l 0) pic.length) (pic.length + 1) (by omega) (by omega) (by omega)
+  refine ⟨h1.1, ?_, ?_⟩
+  · intro eo heo
+    simp only [List.mem_cons] at heo
+    rcases heo with rfl | heo
+    · rfl
+    · exact (h1.2 eo heo).1
+  · simp only [List.map_cons, List.pairwise_cons]
+    refine ⟨?_, h2⟩
+    intro o ho
+    simp only [List.mem_map] at ho
+    obtain ⟨eo, heo, rfl⟩ := ho
+    have := (h1.2 eo heo).2
+    have := hl 0
+    by_cases hp : pic.length = 0
+    · omega
+    · omega
+
+/-- **cover file after fall-back**: exact bytes, no MIME type, all further requests to `albumart` -/
+theorem C17_exact_file_varying (ask : Bool → Nat → Decoded) (pic : Bytes) (mime' : Option Bytes) (l : Nat → Nat)
+    (hl : ∀ off, 1 ≤ l off) (hfb : artNext .first (ask true 0) = .request false 0 .fallback)
+    (hask : ∀ off, ask false off = chunkAtV pic mime' l off) :
+    (artRun ask (pic.length + 3) start).1 = some (.art (some (pic, none))) := by
+  have hsecond : artNext .fallback (ask false 0) = artLoop false pic.length none (pic.take (min (l 0) pic.length)) := by
+    rw [hask]
+    have : pic.take (l 0) = pic.take (min (l 0) pic.length) := by simp [List.take_eq_take_iff]
+    simp [chunkAtV, artNext, this]
+  simp only [start, artRun, hfb, hsecond]
+  exact (loop_exact_v ask false pic none mime' l hl hask pic.length (min (l 0) pic.length) (pic.length + 1) (by omega) (by omega) (by omega)).1
+
+/-- non-vacuity: 20 bytes served as 8 + 3 + 8 + 1 (a short read in the middle) -/
+example : artRun (fun _ off => chunkAtV (str "ABCDEFGHIJKLMNOPQRST") none (fun o => if o == 8 then 3 else 8) off) 22 start =
+    (some (.art (some (str "ABCDEFGHIJKLMNOPQRST", none))), [(true, 0), (true, 8), (true, 11), (true, 19)]) := by
+  decide +kernel
+
 /-! ## non-vacuity: 7 bytes in chunks of 3 -/
 example : artRun (fun _ off => chunkAt (str "ABCDEFG") (some (str "image/png")) 3 off) 9 start =
     (some (.art (some (str "ABCDEFG", some (str "image/png")))), [(true, 0), (true, 3), (true, 6)]) := by
